@@ -130,6 +130,16 @@ def _work(pid, tier, seed, kind, items):
     return agg
 
 
+def _seam(pid):
+    mod = load_prop(pid)
+    if hasattr(mod, "prime"):
+        mod.prime()
+    try:
+        return mod.seam_check()
+    except Exception:
+        return "seam check raised:\n" + traceback.format_exc()
+
+
 # ------------------------------------------------------------------------------
 # driver
 # ------------------------------------------------------------------------------
@@ -171,6 +181,17 @@ def run_check(pid, tier, seed, jobs=None, budget=None, runs=None, quiet=False, c
     mod = load_prop(pid)
     if hasattr(mod, "prime"):
         mod.prime()
+    if hasattr(mod, "seam_check"):
+        # Seam drift (the code no longer reaches the simulator through the seams the harness uses) is a harness error:
+        # exit 2, no VIOLATION line.  It runs in a forked child so that the parent stays pristine.
+        try:
+            with cf.ProcessPoolExecutor(max_workers=1, mp_context=multiprocessing.get_context("fork")) as ex1:
+                drift = ex1.submit(_seam, pid).result(timeout=300)
+        except Exception as e:
+            drift = "seam check crashed: %r" % (e,)
+        if drift:
+            sys.stderr.write("HARNESS-ERROR: seam drift for %s: %s\n" % (pid, drift))
+            return 2
     jobs = jobs or int(os.environ.get("VERIF_JOBS", "16"))
     n_runs = runs if runs is not None else mod.RUNS[tier]
     budget = budget if budget is not None else mod.BUDGET_S[tier]
